@@ -260,7 +260,7 @@ spif_tok_dup(spif_tok_t self)
     tmp->quote = self->quote;
     tmp->dquote = self->dquote;
     tmp->escape = self->escape;
-    tmp->tokens = SPIF_LIST_DUP(self->tokens);
+    tmp->tokens = ((SPIF_LIST_ISNULL(self->tokens)) ? ((spif_list_t) NULL) : (SPIF_LIST_DUP(self->tokens)));
     tmp->sep = spif_str_dup(SPIF_STR(self->sep));
 
     return tmp;
